@@ -758,6 +758,85 @@ func genMismatch(rng *rand.Rand, o genOpts, engine string) *scn {
 
 
 
+
+// genInflatedHeight: BEFORE the engine starts (the rig builds the engine on a table that is already there: a second
+// start of the service on the same database) the table holds headers HIGHER than the longest-chain tip that are not on
+// the longest chain — (a) an orphan run (descendants of a forbidden header that itself is not stored: synthetic heights
+// 1, 2, 3, …) or (b) a taller but lighter STALE branch (work 1 per header against work 3) — reaching the height of a
+// checkpoint that sync has NOT passed. Then a node serves a branch that contradicts that checkpoint. The checkpoint is
+// pending whatever else the table holds: the request stops at it, the contradicting header gets its sender dropped.
+func genInflatedHeight(rng *rand.Rand, o genOpts, engine string) *scn {
+	L := 6 + rng.Intn(minInt(o.MaxLen, 14)-5)
+	s := &scn{Engine: engine, Sched: "serial", Seed: rng.Int63n(1 << 30), Salt: rng.Uint32(), Parents: linearParents(L)}
+	var c, p int // checkpoint height, stored honest prefix
+	var extra []int
+	heavyMain := false
+	if rng.Intn(2) == 0 {
+		// (a) orphan run of k headers on a forbidden child of genesis
+		c = 2 + rng.Intn(L-3)
+		k := c + rng.Intn(3)
+		p = rng.Intn(c - 1)
+		x := len(s.Parents)
+		s.Parents = append(s.Parents, -1)
+		for j := 0; j < k; j++ {
+			s.Parents = append(s.Parents, len(s.Parents)-1)
+			extra = append(extra, len(s.Parents)-1)
+		}
+		s.Forbid = []int{x}
+	} else {
+		// (b) taller, lighter stale branch from genesis: m headers of work 1 against k0 stored honest headers of work 3
+		heavyMain = true
+		k0 := 1 + rng.Intn(minInt(3, L-3))
+		m := k0 + 1 + rng.Intn(2*k0-1) // k0 < m < 3*k0
+		if m > L-1 {
+			m = L - 1
+		}
+		if m <= k0 {
+			k0, m = 1, 2
+		}
+		p = k0
+		c = k0 + 1 + rng.Intn(m-k0)
+		for j := 0; j < m; j++ {
+			par := -1
+			if j > 0 {
+				par = len(s.Parents) - 1
+			}
+			s.Parents = append(s.Parents, par)
+			extra = append(extra, len(s.Parents)-1)
+		}
+	}
+	// the contradicting header at the checkpoint height, on the honest header below it
+	b := len(s.Parents)
+	s.Parents = append(s.Parents, c-2)
+	evilPath := append(seq(0, c-1), b)
+	if rng.Intn(2) == 0 {
+		s.Parents = append(s.Parents, b)
+		evilPath = append(evilPath, b+1)
+	}
+	s.Bits = make([]uint32, len(s.Parents))
+	for i := range s.Bits {
+		s.Bits[i] = defaultBits
+		if heavyMain {
+			s.Bits[i] = bitsSmall[2]
+		}
+	}
+	if heavyMain {
+		for _, i := range extra {
+			s.Bits[i] = bitsSmall[0]
+		}
+	}
+	s.Cps = []int{c - 1}
+	s.Init = append(seq(0, p), extra...)
+	s.Nodes = append(s.Nodes, scnNode{Path: evilPath, Pos: len(evilPath), Cap: 2000, Dir: "out", Honest: false, CloseAt: -1, StallAt: -1})
+	s.Steps = append(s.Steps, scnStep{Kind: "connect", Node: 0}, scnStep{Kind: "run"})
+	if rng.Intn(2) == 0 {
+		s.Nodes = append(s.Nodes, scnNode{Path: seq(0, L), Pos: L, Cap: 2000, Dir: "out", Honest: true, CloseAt: -1, StallAt: -1})
+		s.Steps = append(s.Steps, scnStep{Kind: "connect", Node: 1}, scnStep{Kind: "run"})
+	}
+	timePasses(s)
+	return s
+}
+
 // genForbiddenFork: the forbidden header F is exactly the header with which a STALE fork would overtake the longest
 // chain. The table holds the honest chain (L headers, work 2 each); the fork leaves it d headers below the tip and is
 // stored STALE — already in the initial table, or delivered right before F in the same headers message; F sits on top
@@ -1051,6 +1130,18 @@ var c07Corpus = []struct {
 		"tree parents=0~2,0,3 bits=207fffff,207fffff,207fffff,207fffff,20400000",
 		"node path=0,3,4 pos=3 cap=2000 dir=out honest=0 stallat=0", "node path=0..2 pos=3 cap=2000 dir=out honest=1",
 		"step connect 1", "step run", "step connect 0", "step push 0 headers 3,4", "step run"}},
+	// heights above the tip that are not on the longest chain. The engine is built on a table that holds five ORPHAN
+	// descendants (#7..#11, synthetic heights 1..5) of the forbidden #6; the tip is genesis, the checkpoint at height 3 (#2)
+	// is pending. The node contradicts it with #12: the request must stop at the checkpoint, the node must be dropped
+	{"orphans-above-tip-legacy", []string{"c06 engine=legacy cpoff=0 cps=2 init=7..11 forbid=6 sched=serial seed=1 salt=23",
+		"tree parents=0~5,-1,7~11,1", "node path=0,1,12 pos=3 cap=2000 dir=out honest=0", "step connect 0", "step run"}},
+	{"orphans-above-tip-exp", []string{"c06 engine=exp cpoff=0 cps=2 init=7..11 forbid=6 sched=serial seed=1 salt=23",
+		"tree parents=0~5,-1,7~11,1", "node path=0,1,12 pos=3 cap=2000 dir=out honest=0", "step connect 0", "step run"}},
+	// … a taller but lighter STALE branch (#6..#10, work 1 each, heights 1..5) next to the tip #1 (height 2, work 3 each);
+	// checkpoint at height 4 (#3) pending, contradicted by #11
+	{"stale-branch-above-tip", []string{"c06 engine=legacy cpoff=0 cps=3 init=0,1,6..10 forbid= sched=serial seed=1 salt=29",
+		"tree parents=0~5,-1,7~10,2 bits=20400000,20400000,20400000,20400000,20400000,20400000,21008000,21008000,21008000,21008000,21008000,20400000",
+		"node path=0..2,11 pos=4 cap=2000 dir=out honest=0", "step connect 0", "step run"}},
 }
 
 // genRunPast: two checkpoints c1 < c2 on the honest chain; the misbehaving node's branch matches c1, forks between them
@@ -1120,7 +1211,7 @@ func genRunPast(rng *rand.Rand, o genOpts, engine string) *scn {
 }
 
 func runC07(c *Ctx) error {
-	c.R.Rule = "scenario = honest chain + a misbehaving scripted node whose (otherwise conformant) chain contains a forbidden header at a random height or contradicts a checkpoint, reply caps 1/2/7/2000 and initial stores chosen so that the offending header lands at every batch position; optional second node pushing descendants of the forbidden header unsolicited; a forbidden header that is exactly the overtaking header of a STALE fork (fork in the initial table or delivered right before it in the same message; longer fork or heavier header), with store-level digests around refused submissions; a node that sends a headers message holding a forbidden header and hangs up before the manager handles it (by-stander or sync peer); a second offender contradicting the same pending checkpoint with a sibling header that is stored STALE, a low-work fork (easier bits) reaching the pending checkpoint height entirely STALE; recovery scenarios (the violator's header exactly at the pending checkpoint height as last header of its answer, a stand-by honest node with a long chain and a large cap); nodes that IGNORE the stop hash and run an answer past a matching checkpoint, the contradiction of the next checkpoint arriving with a later answer (or, rarely, the same one); 1..2 honest nodes; both engines; 0..n checkpoints; serial (trace compared with the Lean model) and free-running scheduling; non-trivial = the offending header was actually delivered"
+	c.R.Rule = "scenario = honest chain + a misbehaving scripted node whose (otherwise conformant) chain contains a forbidden header at a random height or contradicts a checkpoint, reply caps 1/2/7/2000 and initial stores chosen so that the offending header lands at every batch position; optional second node pushing descendants of the forbidden header unsolicited; tables that, before the engine starts (second start on the same database), hold heights above the longest-chain tip that are not on the longest chain (an orphan run below a forbidden header, a taller but lighter stale branch) up to a pending checkpoint that a node then contradicts; a forbidden header that is exactly the overtaking header of a STALE fork (fork in the initial table or delivered right before it in the same message; longer fork or heavier header), with store-level digests around refused submissions; a node that sends a headers message holding a forbidden header and hangs up before the manager handles it (by-stander or sync peer); a second offender contradicting the same pending checkpoint with a sibling header that is stored STALE, a low-work fork (easier bits) reaching the pending checkpoint height entirely STALE; recovery scenarios (the violator's header exactly at the pending checkpoint height as last header of its answer, a stand-by honest node with a long chain and a large cap); nodes that IGNORE the stop hash and run an answer past a matching checkpoint, the contradiction of the next checkpoint arriving with a later answer (or, rarely, the same one); 1..2 honest nodes; both engines; 0..n checkpoints; serial (trace compared with the Lean model) and free-running scheduling; non-trivial = the offending header was actually delivered"
 	l := newSyncModel(c)
 	defer l.Close()
 	if c.Replay != "" {
@@ -1211,7 +1302,10 @@ func runC07(c *Ctx) error {
 		var s *scn
 		kind := "forbidden"
 		if k := rng.Intn(10); k == 9 {
-			switch rng.Intn(5) {
+			switch rng.Intn(7) {
+			case 5, 6:
+				kind = "inflated-height"
+				s = genInflatedHeight(rng, o, engine)
 			case 4:
 				kind = "forbidden-fork"
 				s = genForbiddenFork(rng, o)
